@@ -80,7 +80,16 @@ C06(r) ==
                                tot == StreamSpanMinusBusy(Rows(rk), s)
                            IN tot > 0 =>
                                 /\ \A j \in js : 2 * Abs(rk.out[j].ratio * tot - 100 * rk.out[j].idle) <= tot + 2
-                                /\ Abs(SumSet(js, [j \in js |-> rk.out[j].ratio]) - 100) <= Cardinality(js)) ]
+                                /\ Abs(SumSet(js, [j \in js |-> rk.out[j].ratio]) - 100) <= Cardinality(js)),
+    \* beyond the property: with show_idle_interval_stats the second frame has, per stream and category with at least one interval,
+    \* one row with the number, smallest, largest and (through the mean) total of those intervals
+    beyond_interval_stats |-> r.statsErr = "" /\ All(r, LAMBDA rk : \A s \in StreamsOf(rk) : \A c \in Cats :
+                           LET js == { j \in DOMAIN rk.stats : rk.stats[j].stream = s /\ rk.stats[j].cat = c }
+                               ks == IdleGapKernels(Rows(rk), s, c, r.thr)
+                           IN IF ks = {} THEN \A j \in js : rk.stats[j].count = 0
+                              ELSE /\ Cardinality(js) = 1
+                                   /\ \A j \in js : LET x == rk.stats[j]  y == IdleStatRow(Rows(rk), s, c, r.thr) IN
+                                         x.count = y.count /\ x.min = y.min /\ x.max = y.max /\ 2 * Abs(x.total - y.total) <= y.count) ]
 
 Clauses(r) == CASE r.prop = "C14" -> C14(r)
                 [] r.prop = "C15" -> C15(r)
